@@ -617,6 +617,74 @@ func gnDupKeys(v reflect.Value) bool {
 	return false
 }
 
+// gnDesynced reports whether some list entry's key leaves disagree with its map key (after a key
+// leaf was overwritten or deleted, or a JSON payload carried other keys): the C10 / C12 oracles
+// assume addressable entries and are skipped on such trees.
+func gnDesynced(v reflect.Value) bool {
+	if v.Kind() == reflect.Interface {
+		v = v.Elem()
+	}
+	if v.Kind() != reflect.Ptr || v.IsNil() || v.Elem().Kind() != reflect.Struct {
+		return false
+	}
+	s := v.Elem()
+	entryBad := func(key, ent reflect.Value) bool {
+		a, err := ygot.PathKeyFromStruct(ent)
+		if err != nil {
+			return true
+		}
+		var b []string
+		if key.Kind() == reflect.Struct {
+			km, err := ygot.PathKeyFromStruct(key)
+			if err != nil {
+				return true
+			}
+			for _, k := range sortedKeys(km) {
+				if a[k] != km[k] {
+					return true
+				}
+			}
+			return len(a) != len(km)
+		}
+		ks, err := ygot.KeyValueAsString(key.Interface())
+		if err != nil {
+			return true
+		}
+		for _, x := range a {
+			b = append(b, x)
+		}
+		return len(b) != 1 || b[0] != ks
+	}
+	for i := 0; i < s.NumField(); i++ {
+		f := s.Field(i)
+		switch {
+		case isOrderedMapType(f.Type()):
+			if f.IsNil() {
+				continue
+			}
+			keys := f.MethodByName("Keys").Call(nil)[0]
+			vals := f.MethodByName("Values").Call(nil)[0]
+			for j := 0; j < keys.Len(); j++ {
+				if entryBad(keys.Index(j), vals.Index(j)) || gnDesynced(vals.Index(j)) {
+					return true
+				}
+			}
+		case f.Kind() == reflect.Map:
+			it := f.MapRange()
+			for it.Next() {
+				if entryBad(it.Key(), it.Value()) || gnDesynced(it.Value()) {
+					return true
+				}
+			}
+		case f.Kind() == reflect.Ptr && f.Type().Elem().Kind() == reflect.Struct:
+			if gnDesynced(f) {
+				return true
+			}
+		}
+	}
+	return false
+}
+
 // gnCaseKey is the case term without its constructor and id.
 func gnCaseKey(term string) string {
 	parts := strings.SplitN(term, " ", 3)
@@ -752,6 +820,7 @@ func gnNodeStream(rng *rand.Rand, n int, tier string, out string) (*Summary, err
 					mut = gnMutatePath(rng, path)
 				}
 				kind := rng.Intn(100)
+				desync = desync || gnDesynced(reflect.ValueOf(root))
 				pre := treeTerm(root)
 				lmPre := leafMapOf(root)
 				in := map[string]interface{}{"pkg": name, "path": gnPathString(path), "site": s.kind, "mutation": mut, "tree_before": pre,
